@@ -12,11 +12,14 @@
 (*                                                                         *)
 (* One action per public method, at the grain of the code:                 *)
 (*   ReadScope : offset, offset_length, ctxt, read::<T>, read_cache::<T>,  *)
-(*               == (PartialEq), ReadScopeOwned round trip                 *)
+(*               read_dep::<D>, == (PartialEq), ReadScopeOwned round trip, *)
+(*               ReadArray::empty()                                        *)
 (*   ReadCtxt  : read_u8..read_i64be, read::<T>, read_slice, read_scope,   *)
 (*               read_dep, read_array, read_array_stride,                  *)
 (*               read_array_upto_hack, read_array_dep, read_until_nibble,  *)
-(*               scope, bytes_available                                    *)
+(*               scope, clone, bytes_available, check / check_index /      *)
+(*               check_version, <T as ReadBinary>::read,                   *)
+(*               read_array_dep::<T>(n, ()) for ReadUnchecked T            *)
 (*   ReadArray : len/is_empty, get_item, read_item, last, iter/to_vec/     *)
 (*               IntoIterator (+ size_hint), iter_res/read_to_vec,         *)
 (*               binary_search_by, check_index; ReadArrayCow Borrowed and  *)
@@ -257,6 +260,20 @@ DoScopeOwned(st, t) ==
   LET s == st.objs[t] IN
   Keep(st, Obs(TRUE, "", <<>>, 0, 1, <<-1, s.len, BaseObs(s.base), 1>>, -1, {}))
 
+\* scope.read_dep::<Dep>(n): a fresh context, the harness's dependent type reads n bytes from it as a
+\* slice and reports what it was handed: aux = <<base of the context's scope, bytes the context offers>>.
+DoScopeReadDep(st, t, n) ==
+  LET s == st.objs[t] IN
+  IF ~IsHuge(n) /\ n <= s.len
+  THEN Keep(st, WithAux(Obs(TRUE, "", Bytes(st, s.lo, n), 0, 0, <<>>, -1, {}), <<BaseObs(s.base), s.len>>))
+  ELSE Fail(st, t, "Eof")
+
+\* ReadArray::<T>::empty(): an array of no elements over no bytes (an associated function: the target
+\* object is not used).  Every array operation applies to it.
+DoEmptyArray(st, t, ty) ==
+  LET a == Array(0, 0, SizeOf(ty), SizeOf(ty), 0) IN
+  Push(st, a, Obs(TRUE, "", <<>>, 0, 0, NewOf(a), -1, {}))
+
 ---------------------------------------------------------------------------
 \* ReadCtxt
 
@@ -281,6 +298,18 @@ DoReadScope(st, t, n, slice) ==
                 Obs(TRUE, "", IF slice THEN Bytes(st, c.lo + c.off, n) ELSE <<>>, 0, 0,
                     NewOf(o), Rem(c2), {}))
   ELSE Fail(st, t, "Eof")
+
+\* ctxt.read_dep::<Dep>(n): n bytes as a slice (= read_slice) read by the harness's dependent type, which
+\* also reports what it was handed: aux = <<base of ctxt.scope(), bytes left before the read>>.
+DoReadDep(st, t, n) ==
+  LET c == st.objs[t]  r == DoReadScope(st, t, n, TRUE) IN
+  IF r.obs.ok THEN [r EXCEPT !.obs = WithAux(@, <<BaseObs(Add(c.base, c.off)), Rem(c)>>)] ELSE r
+
+\* ctxt.check(cond) / check_index(cond) / check_version(cond): the named error when the condition is
+\* false; the context is not used.
+DoCheck(st, t, cond, which) ==
+  IF cond = 1 THEN Keep(st, Obs(TRUE, "", <<>>, 0, 0, <<>>, Rem(st.objs[t]), {}))
+  ELSE Fail(st, t, CASE which = 0 -> "BadValue" [] which = 1 -> "BadIndex" [] OTHER -> "BadVersion")
 
 \* read_array::<T>(n), read_array_stride::<T>(n, stride), read_array_dep::<D>(n, size):
 \* n*stride bytes are consumed; an argument that makes n*stride exceed what is left
@@ -316,6 +345,12 @@ DoCtxtScope(st, t) ==
   LET c == st.objs[t]  o == Scope(c.lo + c.off, c.len - c.off, Add(c.base, c.off)) IN
   Push(st, o, Obs(TRUE, "", <<>>, 0, 0, NewOf(o), Rem(c), {}))
 
+\* ctxt.clone(): an independent context over the same window with the same cursor (what the clone
+\* offers is observed through its scope(): the window from the cursor on).
+DoCtxtClone(st, t) ==
+  LET c == st.objs[t]  rest == Scope(c.lo + c.off, c.len - c.off, Add(c.base, c.off)) IN
+  Push(st, c, Obs(TRUE, "", <<>>, 0, 0, NewOf(rest), Rem(c), {}))
+
 DoBytesAvailable(st, t) ==
   LET c == st.objs[t] IN
   Keep(st, Obs(TRUE, "", <<>>, 0, IF c.off < c.len THEN 1 ELSE 0, <<>>, Rem(c), {}))
@@ -328,24 +363,30 @@ ItemIdx(a, i)   == Idx(ItemPos(a, i), a.size)
 \* base of the context a ReadBinaryDep element i is read from (offset_length(i * stride, size))
 ItemBase(a, i)  == BaseObs(Add(a.base, i * a.stride))
 B01(b) == IF b THEN 1 ELSE 0
+IsDepTy(ty) == ty \in {"dep", "depv"}
 
 \* len / is_empty, also through ReadArrayCow::Borrowed (aux = <<is_empty, cow len, cow is_empty>>)
 DoLen(st, t, ty) ==
   LET a == st.objs[t] IN
   Keep(st, WithAux(Obs(TRUE, "", <<>>, 0, a.n, <<>>, -1, {}),
-                   IF ty = "dep" THEN <<B01(a.n = 0)>> ELSE <<B01(a.n = 0), a.n, B01(a.n = 0)>>))
+                   IF IsDepTy(ty) THEN <<B01(a.n = 0)>> ELSE <<B01(a.n = 0), a.n, B01(a.n = 0)>>))
 
 \* get_item / read_item / ReadArrayCow::{get_item, read_item}
-\* Element type "dep" is the harness's ReadFixedSizeDep type: `size` bytes returned as a slice
-\* (read with read_slice, so nothing goes through the unchecked primitives) together with the
-\* base of the context it was given (aux).
+\* Element types "dep" / "depv" are the harness's ReadFixedSizeDep types: `size` bytes returned as a
+\* slice (read with read_slice, so nothing goes through the unchecked primitives) together with what
+\* the element was handed (aux = <<base of its context, bytes its context offers>>: an element sees
+\* exactly its own `size` bytes).  "depv" validates: an element whose first byte is odd is refused
+\* with BadValue (an element's own parse error, which read_item / iter_res / read_to_vec pass on).
 \* own: ReadArrayCow::Owned(array.to_vec()) - the vector is made before the operation, the
 \* operation itself reads nothing.
+ItemFails(st, a, i, ty) == ty = "depv" /\ a.size > 0 /\ ItemBytes(st, a, i)[1] % 2 = 1
 DoItemGen(st, t, ty, i, errName, own) ==
   LET a == st.objs[t] IN
   IF ~IsHuge(i) /\ i < a.n
-  THEN IF ty = "dep"
-       THEN Keep(st, WithAux(Obs(TRUE, "", ItemBytes(st, a, i), 0, 0, <<>>, -1, {}), <<ItemBase(a, i)>>))
+  THEN IF IsDepTy(ty)
+       THEN IF ItemFails(st, a, i, ty) THEN Fail(st, t, "BadValue")
+            ELSE Keep(st, WithAux(Obs(TRUE, "", ItemBytes(st, a, i), 0, 0, <<>>, -1, {}),
+                                  <<ItemBase(a, i), a.size>>))
        ELSE LET o == ValObs(st, ty, ItemPos(a, i), <<>>, -1) IN
             Keep(st, IF own THEN [o EXCEPT !.touched = <<>>] ELSE o)
   ELSE Fail(st, t, errName)
@@ -355,26 +396,42 @@ DoLast(st, t, ty) ==
   LET a == st.objs[t] IN
   IF a.n = 0 THEN Fail(st, t, "None") ELSE DoItem(st, t, ty, a.n - 1, "None")
 
-RECURSIVE Concat(_, _, _)
-Concat(st, a, i) == IF i = a.n THEN <<>> ELSE ItemBytes(st, a, i) \o Concat(st, a, i + 1)
+\* the elements i .. n-1 whose index is in S, one after the other
+RECURSIVE ConcatSel(_, _, _, _)
+ConcatSel(st, a, i, S) ==
+  IF i = a.n THEN <<>>
+  ELSE (IF i \in S THEN ItemBytes(st, a, i) ELSE <<>>) \o ConcatSel(st, a, i + 1, S)
 
 \* iter / to_vec / iter_res / read_to_vec / IntoIterator: exactly elements 0..n-1, in order.
 \* hint: what the iterator announces - <<lower, upper>> of size_hint on the fresh iterator
-\* (ReadArrayIter, also its ExactSizeIterator::len), and again after the first next() for the
-\* index-counting iterators (iter_res, ReadArrayCow::iter).
+\* (ReadArrayIter, also its ExactSizeIterator::len), and again after the first next() and after the
+\* last one for the index-counting iterators (iter_res, ReadArrayCow::iter).  Every iterator, once it
+\* has answered None, answers None again (last entry 1).
 \* own: ReadArrayCow::Owned(to_vec()).iter() - nothing is read by the iteration itself; aux = len, is_empty.
+\* Dependent element types: iter_res yields one result per element - the accepted elements in order
+\* (v, cnt), aux continues with the number and the indices of the refused ones, then base and offered
+\* bytes of every accepted one; read_to_vec fails with the first refusal.
 Pred0(n) == IF n = 0 THEN 0 ELSE n - 1
 DoIter(st, t, ty, hint) ==
   LET a == st.objs[t]
-      aux == CASE hint = "fresh" -> <<a.n, a.n, a.n>>
-               [] hint = "step"  -> <<a.n, a.n, Pred0(a.n), Pred0(a.n)>>
-               [] hint = "own"   -> <<a.n, B01(a.n = 0), a.n, a.n, Pred0(a.n), Pred0(a.n)>>
+      all  == 0 .. (a.n - 1)
+      bad  == IF ty = "depv" THEN {i \in all : ItemFails(st, a, i, ty)} ELSE {}
+      good == all \ bad
+      aux == CASE hint = "fresh" -> <<a.n, a.n, a.n, 1>>
+               [] hint = "step"  -> <<a.n, a.n, Pred0(a.n), Pred0(a.n), 0, 0, 1>>
+               [] hint = "own"   -> <<a.n, B01(a.n = 0), a.n, a.n, Pred0(a.n), Pred0(a.n), 0, 0, 1>>
                [] OTHER          -> <<>>
-      bases == IF ty = "dep" /\ hint = "step" THEN [i \in 1 .. a.n |-> ItemBase(a, i - 1)] ELSE <<>>
+      gs  == SortedSeq(good)
+      dep == IF IsDepTy(ty) /\ hint = "step"
+             THEN <<Cardinality(bad)>> \o SortedSeq(bad) \o [k \in 1 .. Len(gs) |-> ItemBase(a, gs[k])]
+                                       \o [k \in 1 .. Len(gs) |-> a.size]
+             ELSE <<>>
   IN
-  Keep(st, WithAux(Obs(TRUE, "", Concat(st, a, 0), 0, a.n, <<>>, -1,
-                       IF ty = "dep" \/ hint = "own" THEN {} ELSE UNION {ItemIdx(a, i) : i \in 0 .. (a.n - 1)}),
-                   aux \o bases))
+  IF hint = "" /\ bad # {} THEN Fail(st, t, "BadValue")
+  ELSE
+  Keep(st, WithAux(Obs(TRUE, "", ConcatSel(st, a, 0, good), 0, Cardinality(good), <<>>, -1,
+                       IF IsDepTy(ty) \/ hint = "own" THEN {} ELSE UNION {ItemIdx(a, i) : i \in all}),
+                   aux \o dep))
 
 DoCheckIndex(st, t, i) ==
   LET a == st.objs[t] IN
@@ -421,17 +478,23 @@ Apply(st, o) ==
     [] o.op = "ReadCache"       -> DoReadCache(st, o.t, o.ty)
     [] o.op = "ScopeEq"         -> DoScopeEq(st, o.t, o.a)      \* a: the other scope (object number)
     [] o.op = "ScopeOwned"      -> DoScopeOwned(st, o.t)
+    [] o.op = "ScopeReadDep"    -> DoScopeReadDep(st, o.t, o.a)
+    [] o.op = "EmptyArray"      -> DoEmptyArray(st, o.t, o.ty)
+    [] o.op = "ReadB"           -> DoRead(st, o.t, o.ty)        \* <T as ReadBinary>::read(&mut ctxt)
+    [] o.op = "Check"           -> DoCheck(st, o.t, o.a, o.b)   \* a: the condition (0/1), b: check / check_index / check_version
+    [] o.op = "ReadArrayDepT"   -> DoReadArray(st, o.t, o.ty, o.a)   \* read_array_dep::<T>(n, ()), T: ReadUnchecked
     [] o.op = "ReadM"           -> DoRead(st, o.t, o.ty)        \* read_u8 ... read_i64be
     [] o.op = "ReadT"           -> DoRead(st, o.t, o.ty)        \* read::<T>()
     [] o.op = "ReadScope"       -> DoReadScope(st, o.t, o.a, FALSE)
     [] o.op = "ReadSlice"       -> DoReadScope(st, o.t, o.a, TRUE)
-    [] o.op = "ReadDep"         -> DoReadScope(st, o.t, o.a, TRUE)   \* read_dep::<Dep>(n) = n bytes as a slice
+    [] o.op = "ReadDep"         -> DoReadDep(st, o.t, o.a)
     [] o.op = "ReadArray"       -> DoReadArray(st, o.t, o.ty, o.a)
     [] o.op = "ReadArrayStride" -> DoReadArrayStride(st, o.t, o.ty, o.a, o.b)
     [] o.op = "ReadArrayUpto"   -> DoReadArrayUpto(st, o.t, o.ty, o.a)
     [] o.op = "ReadArrayDep"    -> DoReadArrayGen(st, o.t, o.a, o.b, o.b, TRUE)
     [] o.op = "ReadUntilNibble" -> DoReadUntilNibble(st, o.t, o.a)
     [] o.op = "CtxtScope"       -> DoCtxtScope(st, o.t)
+    [] o.op = "CtxtClone"       -> DoCtxtClone(st, o.t)
     [] o.op = "BytesAvailable"  -> DoBytesAvailable(st, o.t)
     [] o.op = "Len"             -> DoLen(st, o.t, o.ty)
     [] o.op = "GetItem"         -> DoItem(st, o.t, o.ty, o.a, "None")
@@ -453,18 +516,18 @@ Apply(st, o) ==
     [] o.op = "OwnCheckIndex"   -> DoCheckIndex(st, o.t, o.a)
     [] o.op = "Search"          -> DoSearch(st, o.t, o.key)
 
-KnownOps == {"Offset","OffsetLength","Ctxt","ScopeRead","ReadCache","ScopeEq","ScopeOwned",
-             "ReadM","ReadT","ReadScope","ReadSlice","ReadDep",
+KnownOps == {"Offset","OffsetLength","Ctxt","ScopeRead","ReadCache","ScopeEq","ScopeOwned","ScopeReadDep","EmptyArray",
+             "ReadM","ReadT","ReadB","Check","ReadArrayDepT","ReadScope","ReadSlice","ReadDep",
              "ReadArray","ReadArrayStride","ReadArrayUpto","ReadArrayDep","ReadUntilNibble",
-             "CtxtScope","BytesAvailable","Len","GetItem","ReadItem","CowGetItem","CowReadItem",
+             "CtxtScope","CtxtClone","BytesAvailable","Len","GetItem","ReadItem","CowGetItem","CowReadItem",
              "OwnGetItem","OwnReadItem","Last","Iter","IntoIter","ToVec","IterRes","ReadToVec","CowIter",
              "OwnIter","CheckIndex","CowCheckIndex","OwnCheckIndex","Search"}
 
 \* which kind of object an operation applies to (the judge refuses an event on another kind)
 OpKind(op) ==
-  IF op \in {"Offset","OffsetLength","Ctxt","ScopeRead","ReadCache","ScopeEq","ScopeOwned"} THEN "scope"
-  ELSE IF op \in {"ReadM","ReadT","ReadScope","ReadSlice","ReadDep","ReadArray","ReadArrayStride","ReadArrayUpto",
-                  "ReadArrayDep","ReadUntilNibble","CtxtScope","BytesAvailable"} THEN "ctxt"
+  IF op \in {"Offset","OffsetLength","Ctxt","ScopeRead","ReadCache","ScopeEq","ScopeOwned","ScopeReadDep","EmptyArray"} THEN "scope"
+  ELSE IF op \in {"ReadM","ReadT","ReadB","Check","ReadArrayDepT","ReadScope","ReadSlice","ReadDep","ReadArray","ReadArrayStride","ReadArrayUpto",
+                  "ReadArrayDep","ReadUntilNibble","CtxtScope","CtxtClone","BytesAvailable"} THEN "ctxt"
   ELSE "array"
 
 ---------------------------------------------------------------------------
@@ -492,7 +555,7 @@ TouchedInWindow(pre, o, obs) ==
 FailNoEffect(pre, post, obs) == ~obs.ok => post = pre /\ obs.touched = <<>>
 \* a successful cursor read returns the bytes at the old cursor and advances by exactly SIZE
 ReadExact(pre, post, o, obs) ==
-  (o.op \in {"ReadM", "ReadT"} /\ obs.ok) =>
+  (o.op \in {"ReadM", "ReadT", "ReadB"} /\ obs.ok) =>
      LET c == pre.objs[o.t]  c2 == post.objs[o.t] IN
      /\ obs.v = Bytes(pre, c.lo + c.off, SizeOf(o.ty))
      /\ c2.off = c.off + SizeOf(o.ty)
@@ -501,7 +564,8 @@ ReadExact(pre, post, o, obs) ==
 DerivedInside(pre, post, o, obs) ==
   (obs.ok /\ Len(post.objs) > Len(pre.objs)) =>
      LET x == pre.objs[o.t]  y == post.objs[Len(post.objs)] IN
-     WindowOf(y) \subseteq IF x.kind = "ctxt" THEN Idx(x.lo + x.off, x.len - x.off) ELSE WindowOf(x)
+     IF o.op = "CtxtClone" THEN y = x       \* a clone: same window, same cursor
+     ELSE WindowOf(y) \subseteq IF x.kind = "ctxt" THEN Idx(x.lo + x.off, x.len - x.off) ELSE WindowOf(x)
 
 \* the field-wise decoding of a type is the SIZE bytes at the position, and SIZE is the sum of the fields
 FieldwiseExact(st, ty, p) ==
